@@ -116,11 +116,12 @@ AltResizes(t) == {<<c, r>> \in {<<2, 2>>, <<2, 4>>, <<3, 3>>, <<1, 2>>, <<3, 1>>
 CtxAlphabet(t) ==
      {F2("Cup", t.rows, t.cols), F2("Cup", 1, 1), F0("Decsc"), F0("Decrc"), F1("Print", 97), FS("Sgr", <<<<1, 0>>>>)}
   \cup {FS(f, <<m>>) : f \in {"Decset", "Decrst"}, m \in {6, 7, 1047, 1048, 1049}}
-  \cup {F2("Decstbm", 2, t.rows), F0("Decstr")}
+  \cup {F2("Decstbm", 2, t.rows), F2("Decstbm", 1, t.rows - 1), F0("Decstr")}
 CtxSizes == {<<3, 3>>}
 CtxLeanAlphabet(t) ==
      {F2("Cup", t.rows, t.cols), F0("Decsc"), F0("Decrc"), F1("Print", 97)}
   \cup {FS(f, <<m>>) : f \in {"Decset", "Decrst"}, m \in {1047, 1049}}
+  \cup {FS("Decset", <<6>>), F2("Decstbm", 1, t.rows - 1)}
 CtxLeanResizes(t) == {<<c, r>> \in {<<2, 2>>, <<4, 5>>} : <<c, r>> # <<t.cols, t.rows>>}
 CtxResizes(t) == {<<c, r>> \in {<<1, 1>>, <<2, 2>>, <<3, 3>>, <<4, 5>>} : <<c, r>> # <<t.cols, t.rows>>}
 
